@@ -1,7 +1,7 @@
-(* C14 phase 2: agreement of the two reader models on modules without blackbox instances (part A8) *)
+(* C14 phase 2: agreement of the two reader models on the documented subset (part A8) *)
 From stdpp Require Import strings gmap sets pretty.
 From CG Require Import Model.FastVerilog Proofs.FastVerilogProofs Gen.Gen_fastv.
-From CG Require Import Proofs.FvA0 Proofs.FvA1 Proofs.FvA2 Proofs.FvA3 Proofs.FvA4 Proofs.FvA5 Proofs.FvA6 Proofs.FvA7.
+From CG Require Import Proofs.FvA0 Proofs.FvA1 Proofs.FvA2 Proofs.FvP1 Proofs.FvE1 Proofs.FvE2 Proofs.FvE3 Proofs.FvE4 Proofs.FvA3 Proofs.FvE5 Proofs.FvE6 Proofs.FvE7 Proofs.FvA4 Proofs.FvA5 Proofs.FvA6 Proofs.FvA7.
 Open Scope string_scope.
 
 Record subset_facts (a : ast) (bbs : list bbdef) : Prop := {
@@ -11,13 +11,15 @@ Record subset_facts (a : ast) (bbs : list bbdef) : Prop := {
   sf_drv_in : ∀ d, d ∈ a_items a ≫= item_drivers bbs → d ∉ decl_inputs a;
   sf_outs : ∀ o, o ∈ decl_outputs a → o ∈ a_items a ≫= item_drivers bbs ∨ o ∈ decl_inputs a;
   sf_uses : ∀ u, u ∈ a_items a ≫= item_uses bbs → u ∈ a_items a ≫= item_drivers bbs ∨ u ∈ decl_inputs a;
+  sf_bbs : NoDup (bb_name <$> bbs);
+  sf_insts : NoDup (inst_names a);
   sf_ports : (list_to_set (a_ports a) : gset string) = list_to_set (decl_inputs a) ∪ list_to_set (decl_outputs a) }.
 
 Lemma in_subset_facts a bbs : in_subset a bbs = true → subset_facts a bbs.
 Proof.
   unfold in_subset. intros H. rewrite !andb_true_iff in H.
   destruct H as (((((((((((H1 & H2) & H3) & H4) & H5) & H6) & H7) & H8) & H9) & H10) & H11) & H12).
-  apply bool_decide_eq_true in H7, H8, H9, H10, H12.
+  apply bool_decide_eq_true in H3, H4, H7, H8, H9, H10, H12.
   split; try done.
   - intros s Hs. rewrite forallb_forall in H2. specialize (H2 s).
     rewrite <- elem_of_list_In, elem_of_elements in H2. apply H2 in Hs. by apply andb_true_iff in Hs as [? _].
